@@ -387,6 +387,10 @@ func (s *Stream) Close() {
 
 	s.inboundFramesInError.Stop()
 
+	// RTSP streams are created on request by RTSPStream() and RTSPSStream()
+	s.mutex.Lock()
+	defer s.mutex.Unlock()
+
 	if s.rtspStream != nil {
 		s.rtspStream.Close()
 	}
